@@ -161,10 +161,6 @@ Qed.
 (* a state is fresh when its bounds are those of its own knowledge (every environment state is) *)
 Definition fresh (c : computer) (n : nat) (t : table) : Prop := oteqn n (compute c n t) (Some t).
 
-Lemma set_same_known_elsewhere n t s r r' :
-  same_known_part n (set t s r) (set t s r') -> True.
-Proof. trivial. Qed.
-
 Theorem sa_reveal_unreveal_undo (c : computer) n t s x t1 :
   (c = CRef \/ c = CCached) -> fresh c n t -> bounded n s -> Kn t s = false ->
   compute c n (set_value t s x) = Some t1 ->
